@@ -260,6 +260,23 @@ class Contexts:
         return b.node(kind='call', fn=fn, name=nm, form=form, args=[r.choice(scope)] if nm == 'h1' else [],
                       tgt=[r.choice(self.names)] if form == 'assign' else [])
 
+    # -- attribute state: one object `o` with attributes v, w, created and initialised by the first statements of the program
+    ATTRS = ('v', 'w')
+
+    def object_prologue(self, b):
+        out = [b.node(kind='newobj', fn=1, tgt=['o'])]
+        for at in self.ATTRS:
+            out.append(b.setattr_node(1, 'o', at, b.T(['a'] if self.r.random() < 0.5 else [])))
+        return out
+
+    def object_stmt(self, b, fn, scope, value):
+        """o.v = <value>  /  x = o.v  (in any function: nested functions reach `o` through their closure)"""
+        r = self.r
+        at = r.choice(self.ATTRS)
+        if r.random() < 0.6:
+            return b.setattr_node(fn, 'o', at, value)
+        return b.node(kind='assign', fn=fn, tgt=[r.choice(self.names)], e=b.attr('o', at))
+
     def decorate_def(self, b, node, scope):
         """Give the nested function of a def node a decorator and / or a parameter with a default value."""
         r = self.r
@@ -272,7 +289,12 @@ class Contexts:
             d['e'] = self.simple(b, scope)
 
 
-def initial_assignments(b, rnd, names, prob):
+def initial_assignments(b, rnd, names, prob, cx=None, objects=False):
+    pre = cx.object_prologue(b) if (objects and cx is not None) else []
+    return pre + _initial_assignments(b, rnd, names, prob)
+
+
+def _initial_assignments(b, rnd, names, prob):
     """Most programs start by binding their variables: otherwise half of all generated programs can only end in the
     NameError of their first read and exercise nothing behind it.  The rest keeps possibly-unbound variables."""
     if rnd.random() >= prob:
@@ -286,9 +308,10 @@ class RandomGen:
 
     def __init__(self, rnd, maxdepth=3, loop_else=False, maxfns=3, ifexp=True, exprstmt=True, dele=True,
                  try_=True, with_=True, calls=True, names=None, hnames=True, directives=True, contexts=None, lam_rate=0.08,
-                 def_rate=0.0, call_rate=0.0, closure_bias=False, init=0.7):
+                 def_rate=0.0, call_rate=0.0, closure_bias=False, init=0.7, obj_rate=0.3):
         self.contexts = CONTEXTS if contexts is None else contexts
         self.init = init                # probability that the program starts by assigning its variables
+        self.objects = self.contexts and rnd.random() < obj_rate     # this program keeps attribute state on an object `o`
         self.lam_rate = lam_rate        # share of statements that store / call a lambda value
         self.def_rate = def_rate        # extra share of statements that define / call a nested function (closure profile)
         self.call_rate = call_rate
@@ -362,6 +385,8 @@ class RandomGen:
             if self.cx.callable_lams(b, fn) and self.r.random() < 0.6:
                 return self.cx.lambda_call(b, fn, scope, allow_return=not infinally)
             return self.cx.lambda_stmt(b, fn, scope)
+        if self.objects and self.r.random() < 0.12:
+            return self.cx.object_stmt(b, fn, scope, self.value(scope, 1))
         if self.calls and self.def_rate and depth <= 1 and len(b.fns) < self.maxfns and self.r.random() < self.def_rate:
             return self.def_stmt(fn, scope, depth)
         if self.calls and self.call_rate and self.r.random() < self.call_rate:
@@ -452,7 +477,7 @@ class RandomGen:
         b = self.b
         b.fn('f', ['a', 'b'], 0)
         body = self.block(1, self.names + ['a', 'b'], 0, False, lo=lo, hi=hi)
-        b.fns[0]['body'] = initial_assignments(b, self.r, self.names, self.init) + body
+        b.fns[0]['body'] = initial_assignments(b, self.r, self.names, self.init, self.cx, self.objects) + body
         return b.finish()
 
 
